@@ -40,6 +40,9 @@ LAYOUTS = [
     "start: x ((a | b) c (d | e)) y\n",
     "start: ((a b) | (c d)) e !((a) (b)) c\n",
     "start: ','.((a b) (c d))+ ((a))* [((b) (c))]\n",
+    # `memo` is an ordinary identifier everywhere but inside the (memo) flag
+    "memo: a memo=b { f(memo) }\nstart (memo): memo\n",
+    "start[memo] (memo): memo=memo memo\n    | memo { memo }\n",
     # f-strings inside actions: conversions, the = form, format specs, nested braces, several fields
     "start: a { f\"{x!r}\" }\n  | b { f\"{x=}\" }\n  | c { f'{x!s:>4}' }\n",
     "start: a { f\"{x:{w}.{p}} and {y!a}\" }\n",
